@@ -159,7 +159,33 @@ func localShapeB() shape {
 	return mkShape("same-printed-name-b", true, func(id int, s string) Local { return Local{ID: id, S: s} }, func(e Local) int { return e.ID })
 }
 
-func init() { shapes = append(shapes, localShapeA(), localShapeB()) }
+// Event types declared on a slice and on a map, with a custom name: their
+// zero value is nil, their published values are not.
+type Items []string
+
+func (Items) EventTypeName() string { return "c15.items.v1" }
+
+type Labels map[string]string
+
+func (Labels) EventTypeName() string { return "c15.labels.v1" }
+
+func atoi(s string) int {
+	n := 0
+	fmt.Sscan(s, &n)
+	return n
+}
+
+func init() {
+	shapes = append(shapes, localShapeA(), localShapeB(),
+		mkShape("namer-slice", true, func(id int, s string) Items { return Items{fmt.Sprint(id), s} }, func(e Items) int {
+			if len(e) == 0 {
+				return -1
+			}
+			return atoi(e[0])
+		}),
+		mkShape("namer-map", true, func(id int, s string) Labels { return Labels{"id": fmt.Sprint(id), "s": s} }, func(e Labels) int { return atoi(e["id"]) }),
+	)
+}
 
 // Envelope names itself by value: one Go type, several event type names.
 type Envelope struct {
